@@ -218,7 +218,10 @@ DecodeN(e, m, inp, pos, ctx, consts, n, acc, fl) ==
 DecodeEof(e, m, inp, pos, ctx, consts, acc, fl) ==
   IF pos >= Len(inp) THEN [OkR([k |-> "list", items |-> acc], pos) EXCEPT !.fl = fl]
   ELSE LET r == Decode(e, m, inp, pos, ctx, consts) IN
-       IF ~r.ok THEN (IF r.err = "eof" THEN [OkR([k |-> "list", items |-> acc], Len(inp)) EXCEPT !.fl = fl \cup {"lax"}] ELSE ErrR(r.err))
+       IF ~r.ok THEN (IF r.err = "eof" THEN [OkR([k |-> "list", items |-> acc], Len(inp)) EXCEPT !.fl = fl \cup {"lax"}]
+                      \* the partial trailing element is also undecodable: value, EOFError or the decoding error ("laxdecode")
+                      ELSE IF r.err = "eof-or-decode" THEN [OkR([k |-> "list", items |-> acc], Len(inp)) EXCEPT !.fl = fl \cup {"lax", "laxdecode"}]
+                      ELSE ErrR(r.err))
        ELSE IF r.pos = pos THEN ErrR("domain")   \* zero-size elements never reach the end
        ELSE DecodeEof(e, m, inp, r.pos, ctx, consts, Append(acc, r.v), fl \cup r.fl)
 
@@ -229,6 +232,16 @@ DecodeNull(e, m, inp, pos, ctx, consts, acc, fl) ==
   ELSE IF IsZero(r.v) THEN [OkR([k |-> "list", items |-> acc], r.pos) EXCEPT !.fl = fl \cup r.fl]
   ELSE IF r.pos = pos THEN ErrR("domain")
   ELSE DecodeNull(e, m, inp, r.pos, ctx, consts, Append(acc, r.v), fl \cup r.fl)
+
+\* An upper bound of what a reader that fetches consecutive fixed-size members with one read asks for, from member j on.
+\* If a member of such a run is undecodable AND the input ends inside the run, which of the two failures is noticed first
+\* depends on the reader (field by field, or block-wise like the generated one): the statement leaves it open.
+RECURSIVE RunNeed(_, _, _)
+RunNeed(t, m, j) ==
+  IF j > Len(t.fields) THEN 0
+  ELSE LET f == t.fields[j]
+           sz == IF f.bits > 0 THEN Storage(f.type).size ELSE SizeOf(f.type, m)
+       IN IF sz = Dyn THEN 0 ELSE sz + (IF m.align THEN AlignOf(f.type, m) - 1 ELSE 0) + RunNeed(t, m, j + 1)
 
 \* st.unit: bits of the open storage unit, LSB first of the unit's integer (read in stream endianness)
 DecodeFields(t, m, inp, start, pos, i, lay, consts, st) ==
@@ -254,7 +267,7 @@ DecodeFields(t, m, inp, start, pos, i, lay, consts, st) ==
                                     [st EXCEPT !.names = Append(@, f.name), !.vals = Append(@, val),
                                                !.sizes = Append(@, -1), !.unit = unit])
           ELSE LET r == Decode(f.type, m, inp, here, CtxOf(st.names, st.vals), consts) IN
-               IF ~r.ok THEN ErrR(r.err)
+               IF ~r.ok THEN ErrR(IF r.err = "decode" /\ here + RunNeed(t, m, i) > Len(inp) THEN "eof-or-decode" ELSE r.err)
                ELSE DecodeFields(t, m, inp, start, r.pos, i + 1, lay, consts,
                                  [names |-> Append(st.names, f.name), vals |-> Append(st.vals, r.v),
                                   sizes |-> Append(st.sizes, r.pos - here), unit |-> << >>, fl |-> st.fl \cup r.fl])
